@@ -236,3 +236,51 @@ def clone_guess():
         except Exception as e:
             res.append(('C12.g:clone_guess:' + tag, 'error', '%s: %s' % (type(e).__name__, (str(e).splitlines() or [''])[-1][:200])))
     return res
+
+
+def builtin_saveload():
+    """C18 for configurations outside the exact families: shooting with CasADi's built-in integrators (default options) and
+    grids with default bounds under a free horizon.  The loaded problem must be the same NLP as the saved one."""
+    import os, tempfile
+    import casadi as ca
+    from rockit import Ocp, MultipleShooting, SingleShooting, FreeTime, UniformGrid
+    from rockit.sampling_method import FunctionGrid, DensityGrid
+    from build import NodeFun
+    res = []
+    tau = ca.MX.sym('tau')
+    configs = [('MS-collocation', lambda: MultipleShooting(N=3, M=2, intg='collocation')),
+               ('SS-cvodes', lambda: SingleShooting(N=2, intg='cvodes')),
+               ('MS-functiongrid', lambda: MultipleShooting(N=3, intg='rk', grid=FunctionGrid(NodeFun([0.0, 0.25, 0.5, 1.0])))),
+               ('MS-densitygrid', lambda: MultipleShooting(N=3, intg='rk', grid=DensityGrid(1 + tau)))]
+    for tag, mm in configs:
+        fn = os.path.join(tempfile.gettempdir(), 'vbi_%d.rockit' % os.getpid())
+        try:
+            def mk():
+                ocp = Ocp(t0=0, T=FreeTime(1.5))
+                x = ocp.state(); u = ocp.control(); p = ocp.parameter()
+                ocp.set_der(x, -p * x * x + u + 0.3 * ocp.t); ocp.set_value(p, 0.8)
+                ocp.add_objective(ocp.T + ocp.integral(u ** 2 + x ** 2)); ocp.subject_to(ocp.at_t0(x) == 1); ocp.subject_to(ocp.at_tf(x) == 0.25); ocp.subject_to(-2 <= (u <= 2))
+                ocp.method(mm()); ocp.solver('ipopt', {"ipopt.print_level": 0, "print_time": False, "ipopt.sb": "yes"})
+                return ocp
+            def nlp(o):
+                quiet(lambda: o._transcribed)
+                opti = o._method.opti
+                return ca.Function('F', [opti.x, opti.p], [opti.f, opti.g, opti.lbg, opti.ubg]), np.array(opti.debug.value(opti.x, opti.initial())).reshape(-1), np.array(opti.debug.value(opti.p, opti.initial())).reshape(-1)
+            ocp = quiet(mk)
+            quiet(ocp.save, fn); o2 = quiet(Ocp.load, fn)
+            Fa, xa, pa = nlp(ocp); Fb, xb, pb = nlp(o2)
+            ok = xa.shape == xb.shape and np.array_equal(pa, pb) and np.allclose(xa, xb)
+            det = ''
+            rng = np.random.RandomState(2)
+            for _ in range(2):
+                z = rng.uniform(0.2, 1.2, size=xa.shape)
+                for nm, ra, rb in zip(('f', 'g', 'lbg', 'ubg'), Fa(z, pa), Fb(z, pb)):
+                    ra, rb = np.array(ra), np.array(rb)
+                    if ra.shape != rb.shape: ok = False; det = '%s has %s entries in the saved and %s in the loaded problem' % (nm, ra.shape, rb.shape)
+                    elif not np.allclose(ra, rb, atol=1e-9, equal_nan=True): ok = False; det = '%s differs by %g' % (nm, float(np.nanmax(np.abs(ra - rb))))
+            res.append(('C18.a:builtin:' + tag, 'ok' if ok else 'mismatch', det))
+        except Exception as e:
+            res.append(('C18.a:builtin:' + tag, 'error', '%s: %s' % (type(e).__name__, (str(e).splitlines() or [''])[-1][:200])))
+        finally:
+            if os.path.exists(fn): os.unlink(fn)
+    return res
